@@ -23,7 +23,7 @@ REQUIRED_THEOREMS = ['CfVerif.C08.' + t for t in (
     'header_lossless', 'emit_decodes', 'emit_complete', 'unrepresentable_raises', 'emit_port_channel_size', 'lopo_payload_decodes', 'thrust_out_of_range_raises',
     'thrust_float_never_sent', 'int16_overflow_raises', 'f64ToInt_trunc', 'compress_quaternion_layout', 'iLargest_is_max',
     'bsMask_testBit', 'lh_persist_invalid_raises', 'lh_persist_live_counterexample', 'neg_int_zero',
-    'gen_setpoint', 'gen_hover', 'gen_fullState', 'gen_hlGoTo', 'gen_hlSpiral', 'gen_lhPersist', 'gen_lhPersist_detail', 'gen_packet',
+    'gen_emitters', 'gen_setpoint', 'gen_hover', 'gen_fullState', 'gen_hlGoTo', 'gen_hlSpiral', 'gen_lhPersist', 'gen_lhPersist_detail', 'gen_packet',
     'gen_compress_quaternion')]
 TRUSTED = ['harness/corr/c08.py extractor + correspondence + Python twin of the firmware decoder',
            'Spec/C08.lean: the firmware packet layouts, type numbers, version gates and sign conventions (written from the firmware, not from cflib)',
@@ -214,6 +214,18 @@ def extract(ctx):
     fns = {}
     for relpath, qual, key in METHODS:
         fns[key] = _emit_method(g, trees, relpath, qual, key)
+    # ---- completeness of the method list: every function of the anchored classes that hands something to the link
+    handoff = ('send_packet', '_send_packet', 'send_short_lpp_packet', 'send_extpos', 'send_extpose')
+    for relpath, cls in (('cflib/crazyflie/commander.py', 'Commander'), ('cflib/crazyflie/high_level_commander.py', 'HighLevelCommander'),
+                         ('cflib/crazyflie/localization.py', 'Localization'), ('cflib/crazyflie/extpos.py', 'Extpos'),
+                         ('cflib/crazyflie/platformservice.py', 'PlatformService'), ('lpslib/lopoanchor.py', 'LoPoAnchor')):
+        c = X.find(trees[relpath], cls)
+        names = []
+        for fn in c.body:
+            if isinstance(fn, (ast.FunctionDef, ast.AsyncFunctionDef)):
+                if any(isinstance(n, ast.Call) and isinstance(n.func, ast.Attribute) and n.func.attr in handoff for n in ast.walk(fn)):
+                    names.append(fn.name)
+        g.strings('emitters_' + cls, names)
     # ---- method specific expressions
     # send_setpoint: x-mode mix text, full-state scaling
     at = _assign_texts(fns['setpoint'])
@@ -998,6 +1010,46 @@ def corpus_cases():
     return out
 
 
+def branches(name, ver, a):
+    """branch / condition labels of one call (for the distribution record: none of these may stay constant)"""
+    out = []
+    if name == 'setpoint':
+        out.append('xmode=%s' % a[0])
+        t = a[4]
+        out.append('thrust:' + ('float' if isinstance(t, float) else 'low' if t < 0 else 'high' if t > 65535 else 'ok'))
+        out.append('neg-int0' if is_int0(a[2]) and not a[0] else 'neg-other')
+    if name in ('velocityWorld', 'zdistance', 'hover'):
+        yr = a[3] if name == 'velocityWorld' else a[2]
+        out.append('%s:%s%s' % (name, 'legacy' if ver <= 8 else 'new', ':int0' if is_int0(yr) and ver <= 8 else ''))
+    if name == 'hlGoTo':
+        out.append('goto:' + ('legacy' if ver < 8 else 'new') + ':rel=%s:lin=%s' % (bool(a[5]), bool(a[6])))
+    if name in ('hlTakeoff', 'hlLand'):
+        out.append('%s:yaw=%s' % (name, 'None' if a[3] is None else 'given'))
+    if name == 'hlSpiral':
+        if ver < 8:
+            out.append('spiral:unsupported')
+        else:
+            out.append('spiral:angle:' + ('hi' if a[0] > TWO_PI else 'lo' if a[0] < -TWO_PI else 'in'))
+            out.append('spiral:r0:' + ('neg' if a[1] < 0 else 'ok'))
+            out.append('spiral:rF:' + ('neg' if a[2] < 0 else 'ok'))
+    if name == 'fullState':
+        import math
+        q = a[3]
+        if all(isinstance(x, (int, float)) and math.isfinite(x) for x in q) and any(q):
+            qn = quat_norm(q)
+            l = max(range(4), key=lambda i: (abs(qn[i][0]), -i))
+            out.append('quat:largest=%d:negate=%s' % (l, qn[l][0] < 0))
+        else:
+            out.append('quat:degenerate')
+        out.append('fullState:' + ('ints' if any(isinstance(x, int) for v in (a[0], a[1], a[2], a[4]) for x in v) else 'floats'))
+    if name == 'lhPersist':
+        out.append('lh:' + ('dup' if len(set(a[0])) < len(a[0]) or len(set(a[1])) < len(a[1]) else 'nodup') +
+                   (':invalid' if any(not 0 <= b <= 15 for b in a[0] + a[1]) else ''))
+    if name == 'shortLpp':
+        out.append('lpp:len%s28' % ('>' if len(a[1]) > 28 else '<='))
+    return out
+
+
 def correspond(ctx):
     cases = []
     for name, ver, a in corpus_cases():
@@ -1013,6 +1065,8 @@ def correspond(ctx):
         if got == 'ok -':
             ctx.count('result:nothing-sent')
         ctx.count('version:' + ('<8' if ver < 8 else '8' if ver == 8 else '>8'))
+        for b in branches(name, ver, a):
+            ctx.count('branch:' + b)
         ctx.case({'line': line[:200]}, (name, line))
         if got != model:
             ctx.disagree(name, line[:400], model[:300], got[:300])
